@@ -13,39 +13,7 @@ verus! {
 
 //@include contracts/rulelib_types.rs
 
-// ---- the specification's rule algorithm (written from the in-toto spec 4.4 / property C03) ----
-pub open spec fn matches_pat(pat: VirtualTargetPath, p: VirtualTargetPath) -> bool { glob_ok(pat.text(), p.text()) == Some(true) }
-pub open spec fn filtered_by(rule: ArtifactRule, queue: Set<VirtualTargetPath>) -> Set<VirtualTargetPath> {
-    queue.filter(|p: VirtualTargetPath| matches_pat(rule_pattern(rule), p))
-}
-//@include contracts/match_spec.rs
-pub struct RuleCtx {
-    pub created: Set<VirtualTargetPath>, pub deleted: Set<VirtualTargetPath>, pub modified: Set<VirtualTargetPath>,
-    pub artifacts: Map<VirtualTargetPath, TargetDescription>, pub links: Map<String, LinkMetadata>,
-}
-// one rule applied to the queue: None = verification fails, Some(q) = the shrunken queue
-pub open spec fn rule_step(rule: ArtifactRule, queue: Set<VirtualTargetPath>, c: RuleCtx) -> Option<Set<VirtualTargetPath>> {
-    let filtered = filtered_by(rule, queue);
-    match rule {
-        ArtifactRule::Create(_) => Some(queue.difference(filtered.intersect(c.created))),
-        ArtifactRule::Delete(_) => Some(queue.difference(filtered.intersect(c.deleted))),
-        ArtifactRule::Modify(_) => Some(queue.difference(filtered.intersect(c.modified))),
-        ArtifactRule::Allow(_) => Some(queue.difference(filtered)),
-        ArtifactRule::Require(p) => if queue.contains(p) { Some(queue) } else { None },
-        ArtifactRule::Disallow(p) =>
-            if (exists|q: VirtualTargetPath| queue.contains(q) && glob_ok(p.text(), q.text()) is None) || filtered.len() > 0 { None } else { Some(queue) },
-        ArtifactRule::Match { .. } => Some(queue.difference(match_consumed(rule, c.artifacts, queue, c.links))),
-    }
-}
-// the first n rules applied in order
-pub open spec fn rules_upto(rules: Seq<ArtifactRule>, n: int, queue0: Set<VirtualTargetPath>, c: RuleCtx) -> Option<Set<VirtualTargetPath>>
-    decreases n
-{
-    if n <= 0 { Some(queue0) } else {
-        match rules_upto(rules, n - 1, queue0, c) { None => None, Some(q) => rule_step(rules[n - 1], q, c) }
-    }
-}
-
+//@include contracts/rule_algorithm.rs
 // ---- apply_rules_on_link ----
 // D32: `M.iter().filter_map(|(path, _)| canonicalize_path(path)).collect::<BTreeSet<_>>()`
 #[verifier::external_body]
@@ -61,33 +29,10 @@ fn btreeset_intersection_filter_map<F: FnMut(VirtualTargetPath) -> Option<Virtua
     ensures forall|x: VirtualTargetPath| #![trigger a@.contains(x), b@.contains(x)] #![trigger fmap_ret(f, x)] a@.contains(x) && b@.contains(x) ==> f.ensures((x,), fmap_ret(f, x)),
             forall|y: VirtualTargetPath| #[trigger] r@.contains(y) <==> exists|x: VirtualTargetPath| a@.contains(x) && b@.contains(x) && #[trigger] fmap_ret(f, x) == Some(y),
 { unimplemented!() }
-// a path whose recorded material and product entries differ (raw maps, looked up by the cleaned path)
-pub open spec fn entry_differs(l: LinkMetadata, name: VirtualTargetPath) -> bool {
-    (if l.materials@.contains_key(name) { Some(l.materials@[name]) } else { None::<TargetDescription> })
-    != (if l.products@.contains_key(name) { Some(l.products@[name]) } else { None::<TargetDescription> })
-}
-// the context of one pass (materials or products) of an item
-pub open spec fn pass_ctx(l: LinkMetadata, artifacts: Map<VirtualTargetPath, TargetDescription>, links: Map<String, LinkMetadata>) -> RuleCtx {
-    let m = canon_set(l.materials@);
-    let p = canon_set(l.products@);
-    RuleCtx { created: p.difference(m), deleted: m.difference(p), modified: m.intersect(p).filter(|x: VirtualTargetPath| entry_differs(l, x)), artifacts, links }
-}
-// C03: the verdict for one item = both passes of the specification's algorithm succeed
-pub open spec fn item_verdict(name: Seq<char>, mats: Seq<ArtifactRule>, prods: Seq<ArtifactRule>, links: Map<String, LinkMetadata>) -> bool {
-    exists|key: String| key@ == name && links.contains_key(key) && {
-        let l = links[key];
-        rules_upto(mats, mats.len() as int, canon_set(l.materials@), pass_ctx(l, l.materials@, links)) is Some
-        && rules_upto(prods, prods.len() as int, canon_set(l.products@), pass_ctx(l, l.products@, links)) is Some
-    }
-}
 //@extract src/rulelib.rs fn:verify_match_rule stub
 //@contract ret=r
 //@include contracts/verify_match_rule.rs
 //@end
-// the SupplyChainItem accessors as ghost views (trait objects)
-pub open spec fn item_name(i: &Box<dyn SupplyChainItem>) -> Seq<char> { (**i).name_v() }
-pub open spec fn item_mats(i: &Box<dyn SupplyChainItem>) -> Seq<ArtifactRule> { (**i).mats_v() }
-pub open spec fn item_prods(i: &Box<dyn SupplyChainItem>) -> Seq<ArtifactRule> { (**i).prods_v() }
 // assumed: `==` / `!=` on a target description (HashMap<HashAlgorithm, HashValue>) is structural equality
 #[verifier::external_body]
 pub proof fn fact_target_description_eq()
@@ -110,7 +55,7 @@ proof fn lemma_rules_none(rules: Seq<ArtifactRule>, n: int, m: int, q0: Set<Virt
 //@subst D31 /queue\s*\.iter\(\)\s*\.filter\(\|p\| (p\.matches\(rule\.pattern\(\)\.value\(\)\)\.unwrap_or\(false\))\)\s*\.cloned\(\)\s*\.collect\(\)/ => btreeset_filter_cloned(&queue, |p: &&VirtualTargetPath| -> (keep: bool) ensures keep == matches_pat(rule_pattern(*rule), **p) { \1 })
 //@subst D30 /(\w+)\s*\.(intersection|difference)\(&(\w+)\)\s*\.cloned\(\)\s*\.collect\(\)/ => btreeset_\2_cloned(&\1, &\3) count=6
 //@contract ret=r
-    ensures r is Ok <==> item_verdict(item_name(item), item_mats(item), item_prods(item), reduced_link_files@),   // [C03]
+//@include contracts/apply_rules_on_link.rs
 //@before /let item_name = item\.name\(\);/
     proof { fact_string_ext(); fact_vtp_ext(); fact_target_description_eq(); }
     let ghost links = reduced_link_files@;
